@@ -127,7 +127,31 @@ def random_layer(ctx, ncases):
         ctx.count('keys:%d' % nkeys)
 
 
+CORPUS = [
+    # minimised from seeded changes: redundant grouping references, keys in any order
+    'SELECT s, t, count(*) AS n, sum(i) AS x FROM #t GROUP BY 1, s, t',
+    'SELECT s, t, count(*) AS n FROM #t GROUP BY s, s, 2',
+    'SELECT i % 2 AS y, j AS m, count(*) AS n FROM #t GROUP BY y, i % 2, m',
+    'SELECT t, s, first(i) AS f, last(i) AS l FROM #t GROUP BY s, t',
+    'SELECT s, first(j) AS f, last(j) AS l, min(j) AS lo FROM #t GROUP BY s',
+    'SELECT count(*) AS n, sum(i) AS x, first(s) AS f FROM #t WHERE i > 100',
+]
+
+
+def corpus_layer(ctx):
+    import impl
+    rows = [(5, None, 'b', 'x'), (3, 2, 'a', 'z'), (8, 3, 'b', 'y'), (1, None, 'a', 'z'), (4, 5, 'a', 'x'), (6, 6, 'b', 'x'), (3, 7, 'c', 'y')]
+    table = impl.HTable('t', [('i', int), ('j', int), ('s', str), ('t', str)], rows)
+    for text in CORPUS:
+        case = SqlCase([table], text, name='corpus')
+        case.check(ctx)
+        if not case.run_impl().startswith('OK'):
+            raise RuntimeError('corpus statement is not accepted: %s' % text)
+        ctx.count('corpus')
+
+
 def run(ctx):
+    corpus_layer(ctx)
     small_layer(ctx)
     random_layer(ctx, 60000 if ctx.thorough() else 600)
 
